@@ -50,6 +50,7 @@ pub fn escape_str(s: &str) -> String {
             '\t' => o.push_str("\\t"),
             '\u{8}' => o.push_str("\\b"),
             '\u{c}' => o.push_str("\\f"),
+            c if (c as u32) < 0x20 => o.push_str(&format!("\\u{:04x}", c as u32)),
             c => o.push(c),
         }
     }
